@@ -226,6 +226,7 @@ def run(ctx):
             k = all_compositions_parallel(ctx, spec, msgs, data, ends)
             nshort += k
             ctx.distinct(('s-all', tuple(spec_key(spec)), k))
+            ctx.distinct_extra += k
             ctx.extra['distinct_in_parallel_shards'] = ctx.extra.get('distinct_in_parallel_shards', 0) + k
         else:
             for segs in compositions(n):
